@@ -38,6 +38,7 @@ def run(ctx):
     ctx.call(GR.worker_symmetry, "6")
     ctx.call(GR.flat_expansion, "7")
     ctx.call(GR.lazy_eager_details, "8")
+    ctx.call(GR.dependency_table, "4t")
 
 
 NODE = "cartgraph/node.py"
